@@ -20,6 +20,8 @@ import Cx.Model.DfaRev
             r, l, q = the same without a cache (= the NFA fallbacks nfaFallbackReverse / …Limited / …IsMatchReverse,
             i.e. `reverseWalk`); the reverse searches never answer `G` (their fallback is part of the model)
         answer: the results joined by `,` (end | -1 | t | f | G)
+    dfa fwd <stride> <capacity> <maxclears> <detlimit> <classhex|-> <nfa> <ops>
+        the same as `dfa run` with `DeterminizationLimit = <detlimit>` (a forward DFA: `BreakAtMatch = true`)
     dfa rev <stride> <capacity> <maxclears> <detlimit> <classhex|-> <nfa> <ops>
         the same as `dfa run` for a REVERSE DFA: `Config.BreakAtMatch = false` (as meta builds every reverse DFA),
         `DeterminizationLimit = <detlimit>`; `<nfa>` is the reverse automaton (`nfa.Reverse(N)` / `nfa.ReverseAnchored(N)`)
@@ -144,6 +146,15 @@ def handle? (toks : List String) : Option String :=
       | some rs => some (",".intercalate rs)
       | none => some "bad-op"
     | _, _, _, _, _, _ => some "bad-op"
+  | ["dfa", "fwd", stride, cap, clears, det, cls, nfa, ops] =>
+    match parseNat stride, parseNat cap, parseNat clears, parseNat det, parseCls cls, Driver.parseNfa nfa,
+        (ops.splitOn ";").mapM parseOp with
+    | some stride, some cap, some clears, some det, some cls, some N, some ops =>
+      let cfg : Config := { capacity := cap, maxClears := clears, stride := stride, cls := cls, detLimit := det }
+      match runOps N cfg ops Cache.empty [] with
+      | some rs => some (",".intercalate rs)
+      | none => some "bad-op"
+    | _, _, _, _, _, _, _ => some "bad-op"
   | ["dfa", "rev", stride, cap, clears, det, cls, nfa, ops] =>
     match parseNat stride, parseNat cap, parseNat clears, parseNat det, parseCls cls, Driver.parseNfa nfa,
         (ops.splitOn ";").mapM parseOp with
